@@ -253,6 +253,27 @@ const (
 	maxSheetCells = 1 << 22
 )
 
+// cellColumns returns the 0-based column of every cell of a row, -1 for a cell
+// whose reference cannot be decoded. The r attribute of a cell is optional
+// (ECMA-376 Part 1, 18.3.1.4): a cell without it follows the previous cell.
+func cellColumns(cells []cellXML) []int {
+	cols := make([]int, len(cells))
+	prev := -1
+	for i, c := range cells {
+		switch col, _, err := ParseCellRef(c.R); {
+		case err == nil:
+			cols[i] = col
+			prev = col
+		case c.R == "":
+			prev++
+			cols[i] = prev
+		default:
+			cols[i] = -1
+		}
+	}
+	return cols
+}
+
 func (r *Reader) parseWorksheet(data []byte, name string, index int) (*Sheet, error) {
 	var ws worksheetXML
 	if err := xml.Unmarshal(data, &ws); err != nil {
@@ -308,11 +329,7 @@ func (r *Reader) parseWorksheet(data []byte, name string, index int) (*Sheet, er
 		if rowNums[i] > maxRow {
 			maxRow = rowNums[i]
 		}
-		for _, cell := range row.Cells {
-			col, _, err := ParseCellRef(cell.R)
-			if err != nil {
-				continue
-			}
+		for _, col := range cellColumns(row.Cells) {
 			if col > maxCol {
 				maxCol = col
 			}
@@ -355,11 +372,9 @@ func (r *Reader) parseWorksheet(data []byte, name string, index int) (*Sheet, er
 			continue
 		}
 
-		for _, cellXML := range row.Cells {
-			col, _, err := ParseCellRef(cellXML.R)
-			if err != nil {
-				continue
-			}
+		cols := cellColumns(row.Cells)
+		for k, cellXML := range row.Cells {
+			col := cols[k]
 			if col < 0 || col >= len(sheet.Rows[rowIdx]) {
 				continue
 			}
